@@ -37,7 +37,7 @@ PROPS = {
         # (harness renderer == Lean renderGetConfig, event for event), `instev readev` (real reader == event-level
         # model on the tokenised reply), `instev hyp` (hypotheses of the event-level theorems for the real libraries);
         # op `instev`: reply documents outside the agent's own output through `instev readev`
-        ops=[("plan", ["prop=C01", "variant=fixed", "evlevel=1"]), ("instev", []), ("agentrun", ["many"])],
+        ops=[("plan", ["prop=C01", "variant=fixed", "evlevel=1"]), ("instev", []), ("agentrun", ["many"]), ("multirun", [])],
         level_text="Theorems over the model of the diff/patch pipeline and the reference Junos model, no bound on policies, ranges, "
                    "names or runs: every state in the closure of the empty configuration under runs satisfies a decidable "
                    "well-formedness predicate (reachable_agentState); every such state is read back successfully and faithfully "
